@@ -3,3 +3,4 @@ import PetlProofs.Sort
 import PetlProofs.Props.C04
 import PetlProofs.Props.C05
 import PetlProofs.Props.C06
+import PetlProofs.Props.C07
